@@ -72,6 +72,10 @@ type chunkConn struct {
 	fault   error
 	reads   int
 	onRead  func(nth int) // called at the start of every Read (nth = 1, 2, …); may block
+	// errWithData: the Read that delivers the last octets before the fault returns them TOGETHER with the error,
+	// which io.Reader allows ("a Reader returning a non-zero number of bytes at the end of the input stream may
+	// return either err == EOF or err == nil")
+	errWithData bool
 }
 
 func (c *chunkConn) Read(p []byte) (int, error) {
@@ -95,6 +99,9 @@ func (c *chunkConn) Read(p []byte) (int, error) {
 	c.pos += n
 	if n == 0 && len(p) > 0 {
 		return 0, c.fault
+	}
+	if c.errWithData && c.pos >= c.faultAt {
+		return n, c.fault
 	}
 	return n, nil
 }
@@ -214,7 +221,10 @@ func runNonBlocking(c *fw.Case, name string, cd codec.Codec, stream []byte, cuts
 
 // runBlocking serves the stream through chunkConn and checks the frames returned before the fault.
 func runBlocking(c *fw.Case, name string, cd codec.Codec, stream []byte, frameEnds []int, cuts []int, faultAt int, fault error, sched string) {
-	conn := &chunkConn{stream: stream, cuts: cuts, faultAt: faultAt, fault: fault}
+	conn := &chunkConn{stream: stream, cuts: cuts, faultAt: faultAt, fault: fault, errWithData: c.R.Chance(1, 3)}
+	if conn.errWithData {
+		sched += "+err-with-data"
+	}
 	fail := func(kind, format string, args ...any) {
 		c.Failf("blocking-"+kind+"/"+name, "%s\nstream(%d)=%s\nframe ends=%v chunk ends=%v fault at %d (%v)", fmt.Sprintf(format, args...), len(stream), hx(stream), frameEnds, cuts, faultAt, fault)
 	}
